@@ -158,3 +158,15 @@ package readline
 //@   let le = lineE(rl)
 //@   ensures [yy-keeps-buffer] pend ==> *rl.line == old(*rl.line)
 //@   ensures [yy-stores-line] pend && lb != -1 && le != -1 && le > lb ==> killed(rl) == runes(addnl(str(old(*rl.line)[lb:le])))
+
+// ---------------------------------------------------------------------------------------
+// C03: a sequence bound to a macro behaves as if the macro's keys had been typed: run feeds the unescaped
+// macro body to the key stack (checked where run hands over to the command layer); with the pop order
+// proved on PopKey/PeekKey (macro keys first) these are the next keys dispatched.
+
+//@ func (*Shell).run
+//@   props C03 C18
+//@   assume_nopanic the completion engine, hints and the executed command are outside this contract: only the macro hand-over is checked
+//@   requires rl != nil && rl.Keys != nil && rl.completer != nil && rl.History != nil
+//@   at_call GetBuffer#1 [macro-as-typed] bind.Macro && (main || len(bind.Action) > 0) && clean(runes(inputrc.unescs(bind.Action))) ==> rl.Keys.macroKeys == old(rl.Keys.macroKeys) + runes(inputrc.unescs(bind.Action))
+//@   at_call GetBuffer#1 [non-macro-feeds-nothing] !bind.Macro ==> rl.Keys.macroKeys == old(rl.Keys.macroKeys) && rl.Keys.buf == old(rl.Keys.buf)
